@@ -302,7 +302,9 @@ func runCheck(repo, verif, prop, tier string, workers int, noReplay bool) int {
 		bins := map[string]string{}
 		for i, res := range results {
 			run := runs[i]
-			if run.Race {
+			if run.Race || run.Sched {
+				// schedule replays of passing paths can diverge at a native select with several
+				// ready cases; they are not used for validation
 				continue
 			}
 			n := 0
